@@ -126,6 +126,23 @@ func c35(x *Ctx) {
 			c.Unresolved(r1, row.rel+"."+row.strct, "guarded struct not found")
 			continue
 		}
+		mutex := row.mutex
+		if !hasField(nt, mutex) {
+			// the mutex was renamed: a struct with exactly one mutex field has an unambiguous guard
+			var ms []string
+			if st, ok := nt.Underlying().(*types.Struct); ok {
+				for i := 0; i < st.NumFields(); i++ {
+					if t := st.Field(i).Type().String(); t == "sync.Mutex" || t == "sync.RWMutex" {
+						ms = append(ms, st.Field(i).Name())
+					}
+				}
+			}
+			if len(ms) != 1 {
+				c.Unresolved(r1, row.strct+"."+row.mutex, "the struct's mutex field was not found (renamed or removed) and the struct does not have exactly one mutex")
+				continue
+			}
+			mutex = ms[0]
+		}
 		for _, fld := range row.fields {
 			if !hasField(nt, fld) {
 				// renamed or removed: if it lives on under another name and is still written under the mutex, the
@@ -137,7 +154,7 @@ func c35(x *Ctx) {
 				c.Unresolved(r1, row.strct+"."+fld, "guarded field is never accessed")
 				continue
 			}
-			checkField(nt, row.strct, fld, row.mutex, "")
+			checkField(nt, row.strct, fld, mutex, "")
 		}
 	}
 	c.Min(r1, 120)
